@@ -440,6 +440,11 @@ pub fn goal_is_nil(g: &Goal) -> (r: bool)
     ensures r == (*g is Nil),
 { unimplemented!() }
 
+// derived PartialEq on Goal where one side is the field-less variant Nil: equal exactly when both are Nil (TRUSTED T2; the
+// wrapped form `body == Goal::Nil` above stays; this gives the comparison a meaning however it is written, e.g. `Goal::Nil == body`)
+pub assume_specification[ <Goal as PartialEq>::eq ](a: &Goal, b: &Goal) -> (r: bool)
+    ensures (*a is Nil || *b is Nil) ==> r == (*a is Nil && *b is Nil);
+
 pub assume_specification[ <Operator as Clone>::clone ](o: &Operator) -> (r: Operator)
     ensures r == *o;
 pub assume_specification[ <BuiltInPredicate as Clone>::clone ](o: &BuiltInPredicate) -> (r: BuiltInPredicate)
